@@ -190,7 +190,7 @@ from chartparse.sync import BPMEvent, BPMEvents  # noqa: E402
 from datetime import timedelta  # noqa: E402
 
 INSERTS = [None, "  5 = N 8 0", "  5 = N 9 10", "  5 = S 64 3", "  5 = S 0 3", "  5 = E two words", "garbage",
-           "  5 = B 120000", "  5 = N 10 0", "  5 = N 0", "5 = TS 4", '  5 = E "section x"']
+           "  5 = B 120000", "  5 = N 10 0", "  5 = N 0", "5 = TS 4", '  5 = E "section x"', "  {junk}", "  96 = N {2} 0"]
 BASE_SECTION = ["  0 = N 0 0", "  96 = N 1 48", "  96 = S 2 10", "  192 = E solo"]
 NSLOTS = H.part("VF_NSLOTS", 2)
 
